@@ -1,5 +1,6 @@
 CONSTANT Agents <- MCAgents
+CONSTANT WaitsForCopy = FALSE
 SPECIFICATION FairSpec
 INVARIANTS Inv_Exited Inv_Reaped Inv_Order Export
-PROPERTY Returns
+PROPERTIES Returns ReapedDespiteHolders
 CHECK_DEADLOCK FALSE
